@@ -6,6 +6,7 @@ Rec == ndJsonDeserialize(IOEnv.TRACE)
 BytesOK(e) == LET b == e.in.buf  o == e.obs  ts == TokSeq(b).toks  re == ToksBytes(ts) IN
    /\ o.p = "run"
    /\ o.count <= Len(b)                                               \* at most one token per input byte, then it ends
+   /\ o.bcount <= Len(b) /\ o.bsame                                   \* ... whichever way the tokenizer was obtained (owning / borrowing a decoder)
    /\ (WellFormedSeq(b) /\ SeqTextOK(b, 0) /\ NoSNaN(ts)) =>
                    /\ ~o.err /\ o.toks = ts                            \* each token carries the data-model value of its head
                    /\ o.reenc_ok /\ o.reenc = re                       \* re-encoding: preferred heads, same items
